@@ -324,4 +324,5 @@ if __name__ == '__main__':
     if os.environ.get('VERIF_RANDOMIZE'):
         import jsonvals
         jsonvals.randomize(int(os.environ['VERIF_RANDOMIZE']) + hash(os.path.basename(sys.argv[1])) % 1000)
-    json.dump([run(s) for s in json.load(open(sys.argv[1]))], open(sys.argv[2], 'w'))
+    from _guard import guarded
+    json.dump([guarded(run)(s) for s in json.load(open(sys.argv[1]))], open(sys.argv[2], 'w'))
